@@ -304,6 +304,10 @@ func exec(op string) string {
 		return "accept" // the implementation's trace is what it is; the model decides whether it accepts it
 	case "kf-d13":
 		return kfD13()
+	case "trace2":
+		return replayTrace(op)
+	case "sched":
+		return replaySched(op)
 	}
 	return "bad-op"
 }
@@ -377,5 +381,77 @@ func main() {
 		op, cls := runWriterContract(r)
 		out.Case(op, "accept", cls, true)
 	}
+	// scheduling tier: both writers x write timeout {0, >0} x protocol, scripted transport
+	nsched := 700 * mult
+	if v := os.Getenv("C07_NSCHED"); v != "" {
+		fmt.Sscan(v, &nsched)
+	}
+	for i := 0; i < nsched; i++ {
+		conf := sconf{proto: []int{4, 3, 2}[r.Intn(3)], coal: i%2 == 1, wt: (i/2)%2 == 1}
+		sop, ans, top, cls := runSched(r, conf)
+		if strings.HasPrefix(sop, "fatal") {
+			fmt.Fprintln(os.Stderr, "c07:", sop)
+			os.Exit(3)
+		}
+		if sop != "" {
+			out.Case(sop, ans, cls, true)
+		}
+		out.Case(top, "accept", "trace2", true)
+	}
+	// systematic templates: cut position x error kind x which frame of the three outstanding ones.
+	// quick: the offsets around the frame and header boundaries; thorough: every byte offset.
+	for ci := 0; ci < 4; ci++ {
+		conf := sconf{proto: []int{4, 2, 3, 4}[ci], coal: ci%2 == 1, wt: ci/2 == 1}
+		hl := memcluster.HeaderLen(conf.proto)
+		offs := []int{0, 1, hl - 1, hl, hl + 1, 30, 1000 /* = last byte missing */, 1001 /* = whole frame, then the error */}
+		if tier == "thorough" {
+			offs = nil
+			for o := 0; o < 80; o++ {
+				offs = append(offs, o)
+			}
+		}
+		for cf := 1; cf <= 3; cf++ {
+			for _, kind := range errKinds {
+				flen := -1
+				for _, o := range offs {
+					if o >= 1000 {
+						if flen < 0 {
+							continue
+						}
+						o = flen - 1001 + o
+					}
+					sop, ans, top, cls, ok := runTemplate(conf, cf, o, kind)
+					if strings.HasPrefix(sop, "fatal") {
+						fmt.Fprintln(os.Stderr, "c07:", sop)
+						os.Exit(3)
+					}
+					if !ok {
+						if tier == "thorough" {
+							break
+						}
+						continue
+					}
+					if flen < 0 {
+						flen = templateFrameLen(top, cf)
+					}
+					if sop != "" {
+						out.Case(sop, ans, cls, true)
+					}
+					out.Case(top, "accept", "trace2", true)
+				}
+			}
+		}
+	}
 	out.Close(nil)
+}
+
+// templateFrameLen reads the length of frame `cf` off a trace2 line (pieces are p<id>:<len>:<off>:<n>).
+func templateFrameLen(trace string, cf int) int {
+	for _, f := range strings.Split(strings.Fields(trace)[4], ";") {
+		var id, ln, off, n int
+		if k, _ := fmt.Sscanf(f, "p%d:%d:%d:%d", &id, &ln, &off, &n); k == 4 && id == cf {
+			return ln
+		}
+	}
+	return -1
 }
